@@ -59,7 +59,7 @@ class _Subst(ast.NodeTransformer):
 
 
 def subst(e, env):
-    return _Subst(env).visit(copy.deepcopy(e))
+    return fold(_Subst(env).visit(copy.deepcopy(e)))
 
 
 def _call(name, *args):
@@ -123,6 +123,53 @@ def _scalar_like(rhs, cur):
     return isinstance(rhs, ast.JoinedStr) or isinstance(rhs, ast.Constant) and isinstance(rhs.value, (str, bytes))
 
 
+def _symconst(e):
+    """identity of a named constant: a literal, or an attribute chain ending in an upper-case member of a name (CigarOp.MATCH)"""
+    if isinstance(e, ast.Constant):
+        return ("lit", type(e.value).__name__, e.value)
+    if isinstance(e, ast.Attribute) and e.attr.isupper():
+        b = e
+        parts = []
+        while isinstance(b, ast.Attribute):
+            parts.append(b.attr)
+            b = b.value
+        if isinstance(b, ast.Name):
+            return ("member", ".".join([b.id] + parts[::-1]))
+    return None
+
+
+def fold(e):
+    """look-ups of named constants in literal tables: `{K1: v1, K2: v2}[K2]` -> v2, `(a, b)[1]` -> b (after substitution)"""
+    class F(ast.NodeTransformer):
+        def visit_Subscript(self, n):
+            self.generic_visit(n)
+            if isinstance(n.ctx, ast.Load) and isinstance(n.value, ast.Dict) and _symconst(n.slice) is not None \
+                    and all(k is not None and _symconst(k) is not None for k in n.value.keys):
+                for k, v in zip(n.value.keys, n.value.values):
+                    if _symconst(k) == _symconst(n.slice):
+                        return v
+            if isinstance(n.ctx, ast.Load) and isinstance(n.value, (ast.Tuple, ast.List)) and isinstance(n.slice, ast.Constant) \
+                    and isinstance(n.slice.value, int) and not isinstance(n.slice.value, bool) and -len(n.value.elts) <= n.slice.value < len(n.value.elts) \
+                    and not any(isinstance(x, ast.Starred) for x in n.value.elts):
+                return n.value.elts[n.slice.value]
+            return n
+
+        def visit_IfExp(self, n):
+            self.generic_visit(n)
+            k = _known_truth(n.test)
+            return n if k is None else (n.body if k else n.orelse)
+
+        def visit_Call(self, n):
+            self.generic_visit(n)
+            # Enum(Enum.MEMBER) is Enum.MEMBER
+            if isinstance(n.func, ast.Name) and len(n.args) == 1 and not n.keywords:
+                sc = _symconst(n.args[0])
+                if sc is not None and sc[0] == "member" and sc[1].split(".")[0] == n.func.id:
+                    return n.args[0]
+            return n
+    return F().visit(e)
+
+
 def _known_truth(test):
     """True/False if the (substituted) test is decided syntactically, else None"""
     if isinstance(test, ast.Constant):
@@ -130,6 +177,23 @@ def _known_truth(test):
     if isinstance(test, ast.UnaryOp) and isinstance(test.op, ast.Not):
         k = _known_truth(test.operand)
         return None if k is None else not k
+    if isinstance(test, ast.BoolOp):
+        ks = [_known_truth(v) for v in test.values]
+        if isinstance(test.op, ast.And):
+            return False if any(k is False for k in ks) else True if all(k is True for k in ks) else None
+        return True if any(k is True for k in ks) else False if all(k is False for k in ks) else None
+    if isinstance(test, ast.Compare) and len(test.ops) == 1 and isinstance(test.ops[0], (ast.Eq, ast.NotEq, ast.In, ast.NotIn)):
+        # named constants (enumeration members, literals) compared with each other / looked up in a literal collection
+        l, r, op = _symconst(test.left), test.comparators[0], test.ops[0]
+        if l is not None:
+            if isinstance(op, (ast.Eq, ast.NotEq)) and _symconst(r) is not None:
+                eq = l == _symconst(r)
+                return eq if isinstance(op, ast.Eq) else not eq
+            if isinstance(op, (ast.In, ast.NotIn)):
+                items = r.elts if isinstance(r, (ast.Tuple, ast.List, ast.Set)) else r.keys if isinstance(r, ast.Dict) else None
+                if items is not None and all(i is not None and _symconst(i) is not None for i in items):
+                    inside = l in [_symconst(i) for i in items]
+                    return inside if isinstance(op, ast.In) else not inside
     if isinstance(test, ast.Compare) and len(test.ops) == 1 and isinstance(test.ops[0], (ast.Is, ast.IsNot)) \
             and isinstance(test.comparators[0], ast.Constant) and test.comparators[0].value is None:
         l = test.left
@@ -154,6 +218,7 @@ class Summary:
         self.result = None
         self.env = {}
         self.unsupported = None   # reason why the summary is not trustworthy (then result is None and env is empty)
+        self.always_raises = False  # every path through the function / block ends in a raise
 
 
 _FRESH_CALLS = {"np.copy", "np.array", "np.zeros", "np.ones", "np.full", "np.empty", "np.arange", "np.concatenate", "np.stack",
@@ -256,12 +321,13 @@ class _PoisonEnv(dict):
         return True
 
 
-def summarize(func, mutators=None):
-    """see module docstring.  If the function uses a construct that is not modelled (a return inside a loop/try, a break,
+def summarize(func, mutators=None, env0=None):
+    """see module docstring.  `env0`: initial bindings (partial evaluation: a parameter fixed to a named constant, module-level
+    literal tables), under which tests that become decidable are decided.  If the function uses a construct that is not modelled (a return inside a loop/try, a break,
     a generator), `unsupported` names it, and `result` and every `env` entry are the opaque name `__unsupported__`, which
     is equal to no specification: the rules built on summaries fail closed."""
     try:
-        return _summarize(func, mutators)
+        return _summarize(func, mutators, env0)
     except Unsupported as e:
         sm = Summary()
         sm.unsupported = str(e)
@@ -298,7 +364,7 @@ def _merge_guards(guards):
     return [g[0] if len(g) == 1 else ast.BoolOp(op=ast.And(), values=g) for g in gs]
 
 
-def _summarize(func, mutators=None):
+def _summarize(func, mutators=None, env0=None):
     mutators = mutators or {}
     sm = Summary()
     if _has_yield(func):
@@ -579,6 +645,10 @@ def _summarize(func, mutators=None):
             if isinstance(val, (ast.Tuple, ast.List)) and len(val.elts) == len(t.elts):
                 for a, b in zip(t.elts, val.elts):
                     _bind(a, b, env)
+            elif isinstance(val, ast.IfExp) and all(isinstance(x, (ast.Tuple, ast.List)) and len(x.elts) == len(t.elts) for x in (val.body, val.orelse)):
+                # a, b = (p, q) if c else (r, s)
+                for k, a in enumerate(t.elts):
+                    _bind(a, ast.IfExp(test=copy.deepcopy(val.test), body=val.body.elts[k], orelse=val.orelse.elts[k]), env)
             else:
                 for k, a in enumerate(t.elts):
                     _bind(a, _call("__item__", copy.deepcopy(val), ast.Constant(k)), env)
@@ -597,9 +667,10 @@ def _summarize(func, mutators=None):
     def _slice_expr(s):
         return ast.Subscript(value=ast.Name(id="__idx__", ctx=ast.Load()), slice=copy.deepcopy(s), ctx=ast.Load())
 
-    env, ret = run(list(func.body), {})
+    env, ret = run(list(func.body), dict(env0 or {}))
     env.pop("__aliases__", None)
     sm.result = None if ret is RAISE else ret
+    sm.always_raises = ret is RAISE
     sm.env = env
     sm.guards = _merge_guards(sm.guards)
     return sm
@@ -1016,13 +1087,13 @@ def contains_expr(root, src):
     return False
 
 
-def summarize_block(stmts_, skip=lambda st: False):
+def summarize_block(stmts_, skip=lambda st: False, env0=None):
     """final bindings of a statement list treated as straight-line code (e.g. one loop iteration); `skip` drops statements"""
     body = [copy.deepcopy(st) for st in stmts_ if not skip(st)] or [ast.Pass()]
     fn = ast.FunctionDef(name="_block", args=ast.arguments(posonlyargs=[], args=[], kwonlyargs=[], kw_defaults=[], defaults=[]),
                          body=body, decorator_list=[], returns=None, type_comment=None)
     ast.fix_missing_locations(fn)
-    return summarize(fn)
+    return summarize(fn, env0=env0)
 
 
 def field_of(summary, obj, attr):
@@ -1048,8 +1119,21 @@ def field_of(summary, obj, attr):
 def local_value(func, var):
     """value of a local after the stretch of top-level statements of `func` that builds it (from its first assignment to the
     last statement that stores it), every other name left symbolic - cheap and independent of the rest of a long function"""
-    idx = [k for k, st in enumerate(func.body) if any(isinstance(n, ast.Name) and n.id == var and isinstance(n.ctx, ast.Store) for n in ast.walk(st))]
+    def stores(st):
+        return any(isinstance(n, ast.Name) and n.id == var and isinstance(n.ctx, ast.Store) for n in ast.walk(st))
+
+    def innermost(block):
+        """the innermost block all of whose stores of var sit in one of its statements' own nesting"""
+        idx = [k for k, st in enumerate(block) if stores(st)]
+        if len(idx) == 1 and not (isinstance(block[idx[0]], (ast.Assign, ast.AugAssign, ast.AnnAssign))):
+            st = block[idx[0]]
+            subs = [getattr(st, f) for f in ("body", "orelse", "finalbody") if isinstance(getattr(st, f, None), list)]
+            holding = [b for b in subs if any(stores(x) for x in b)]
+            if len(holding) == 1 and isinstance(st, (ast.If, ast.With)):
+                return innermost(holding[0])
+        return block, idx
+    block, idx = innermost(func.body)
     if not idx:
         return None
-    sm = summarize_block(func.body[idx[0]:idx[-1] + 1])
+    sm = summarize_block(block[idx[0]:idx[-1] + 1])
     return sm.env.get(var)
